@@ -39,7 +39,11 @@ def ragged(draw, leaf, depth):
   """ragged nested list description: leaf or [sub, sub, ...]"""
   if depth == 0: return leaf
   n = draw(st.integers(1, 3))
-  return [draw(ragged(leaf, depth - 1 if draw(st.integers(0, 3)) else 0)) if depth > 1 else leaf for _ in range(n)]
+  out = [draw(ragged(leaf, depth - 1 if draw(st.integers(0, 3)) else 0)) if depth > 1 else leaf for _ in range(n)]
+  if depth > 1 and draw(st.integers(0, 4)) == 0:
+    # a triangular array: an empty row (first or elsewhere) next to rows that hold objects
+    out.insert(draw(st.sampled_from([0, 0, len(out)])), [])
+  return out
 
 
 def render_ragged(x, leafstr):
